@@ -9,6 +9,8 @@ mod hubwire;
 mod hubsync;
 mod bisync;
 mod c20;
+mod c19;
+mod c18;
 
 fn main() {
     let mut it = std::env::args().skip(1);
@@ -26,6 +28,8 @@ fn main() {
         "c13" => hubsync::main(args),
         "c02" => bisync::main(args),
         "c20" => c20::main(args),
+        "c19" => c19::main(args),
+        "c18" => c18::main(args),
         _ => {
             eprintln!("unknown command {cmd}");
             2
